@@ -166,6 +166,9 @@ class NpModuleEnv(ModuleEnv):
     def method_call(self, base, name, node, eng, st):
         if isinstance(base, VConst) and isinstance(base.py, tuple) and base.py[0] == 'module' and base.py[1] == 'numpy':
             key = f'np.{name}'
+            if key in eng.c.get('calls', {}):
+                eng.assumed_used.add(key + ' (local)')
+                return self.apply_contract(key, node, eng, st, contract=eng.c['calls'][key])
             if key in self.reg:
                 eng.assumed_used.add(key)
                 return self.apply_contract(key, node, eng, st)
